@@ -13,6 +13,7 @@ type c13Op struct {
 	// observed
 	ok        bool
 	got       any
+	gotSlice  []any
 	n         int
 	hasA      bool
 	hasB      bool
@@ -21,7 +22,7 @@ type c13Op struct {
 	inv, resp int // logical timestamps
 }
 
-const c13Kinds = 9
+const c13Kinds = 10
 
 func c13Run(s *SharedStore, o *c13Op) {
 	switch o.kind {
@@ -57,9 +58,31 @@ func c13Run(s *SharedStore, o *c13Op) {
 		delete(m, "a")
 	case 7:
 		s.Merge(map[string]any{"a": o.val, "b": o.val})
-	default:
+	case 8:
 		s.Clear()
+	default:
+		o.gotSlice = append([]any(nil), s.GetSlice(o.key)...) // a typed getter: a read like Get (result copied by the caller itself)
+		if o.gotSlice != nil && len(o.gotSlice) == 0 {
+			o.gotSlice = nil
+		}
 	}
+}
+
+// c13SliceOf: what GetSlice answers for a stored value of the kinds used here (a one-element typed
+// slice converts to a one-element []any, everything else is "not a slice")
+func c13SliceOf(v any) (any, bool) {
+	if t, ok := v.([]int); ok && len(t) == 1 {
+		return t[0], true
+	}
+	return nil, false
+}
+
+func c13SliceAgrees(got []any, has bool, val any) bool {
+	el, isSlice := c13SliceOf(val)
+	if !has || !isSlice {
+		return got == nil
+	}
+	return len(got) == 1 && vSame(got[0], el)
 }
 
 // reference: a three-key map (Merge writes a and b; c is only touched by single-key operations)
@@ -99,6 +122,8 @@ func (r *c13Ref) sameState(s *SharedStore) bool {
 		has, val := r.slot(k)
 		v, present := s.Get(k)
 		ok = ok && present == *has && (!*has || vSame(v, *val))
+		// the typed getters answer for the value stored now
+		ok = ok && c13SliceAgrees(s.GetSlice(k), *has, *val)
 	}
 	return ok
 }
@@ -127,18 +152,29 @@ func (r *c13Ref) apply(o *c13Op) bool {
 	case 7:
 		r.hasA, r.hasB, r.valA, r.valB = true, true, o.val, o.val
 		return true
-	default:
+	case 8:
 		*r = c13Ref{}
 		return true
+	default:
+		return c13SliceAgrees(o.gotSlice, *has, *val)
 	}
 }
 
-// c13Val: an int or a fresh pointer to a token with fixed contents — values written by different
+// c13Val: an int, a one-element typed slice, or a fresh pointer to a token with fixed contents — values written by different
 // operations are then distinguishable (by identity) although they are deeply equal
+var c13ValueKind = -1
+
 func c13Val(label string) any {
-	if vNondet[bool](label + ".pointerValue") {
+	if c13ValueKind < 0 {
+		c13ValueKind = vChoice("valueKind", 3) // one kind for all values of the run
+	}
+	switch c13ValueKind {
+	case 1:
 		vCover("pointer-values")
 		return &vTok{id: 7}
+	case 2:
+		vCover("typed-slice-values")
+		return []int{vNondet[int](label + ".val")}
 	}
 	return vNondet[int](label + ".val")
 }
@@ -159,6 +195,7 @@ func c13NewOp(label string) *c13Op {
 
 func VH_C13_pair() {
 	vUnwind(12)
+	c13ValueKind = -1
 	s := NewSharedStore()
 	pre := c13Ref{}
 	if vNondet[bool]("preA") {
